@@ -283,8 +283,20 @@ def oracle(c, obs, K, stats=None):
                 seen.add(i)
             got = [int(st["res"][0]), int(st["res"][1])]
             paid = [psp_bal[0] - sp_bal[0], psp_bal[1] - sp_bal[1]]
-            if got != want or paid != want:
-                viol(n, "collect_spread_amount", "collect of %s paid %s (account moved %s) but the claimable query said %s" % (rop.get("ids"), got, paid, want), op=k)
+            # the message collects its positions one after the other and (on a pool whose spread accumulator is not scaled) every collect
+            # re-deposits its dust (< 1 unit per denom) into the global accumulator, so the j-th collect (j = 0, 1, ...) of a position
+            # in range sees up to j re-deposited units more than its query before the message said: trunc(x + d) - trunc(x) <= j for
+            # d < j.  All collects together re-deposit < m - 1 units before the last one, and each of the r later in-range collects
+            # rounds at most once more: total surplus <= min(sum of j over the in-range collects, m - 2 + r).  Never less than the
+            # queries, the account pays exactly what the message reports, and on a scaled pool (no re-deposit) the amounts are equal.
+            ids_l = rop.get("ids") or []
+            slack = 0
+            if not c.get("spread_scaled"):
+                js = [j for j, i in enumerate(ids_l) if j >= 1 and i in pprev and pprev[i]["lo"] <= st["tick"] < pprev[i]["hi"]]
+                if js:
+                    slack = min(sum(js), len(ids_l) - 2 + len(js))
+            if got != paid or any(not (want[d] <= got[d] <= want[d] + slack) for d in (0, 1)):
+                viol(n, "collect_spread_amount", "collect of %s paid %s (account moved %s) but the claimable queries said %s (at most %d more per denom can come from re-deposited dust)" % (rop.get("ids"), got, paid, want, slack), op=k)
             # right after the message a collected position claims nothing again - except for its share of the forfeited dust of the
             # collects of this message: on a pool whose spread accumulator is not scaled every collect re-deposits its dust (< 1 unit,
             # AddToAccumulator(dust / total shares)), which accrues to the positions in range incl. the ones just collected; n collects
